@@ -172,3 +172,8 @@ _add_family(globals(), _dw, 'deadwriter', _dw.oracle, share=0.04)
 # an update condition over a collection whose members are deleted, moved away and added
 from harness import gonecond as _gc                     # noqa: E402
 _add_family(globals(), _gc, 'gonecond', _gc.oracle, share=0.04)
+
+
+# updates whose value is falsy (0, False, '') are updates: never lost, whatever the port is wired to
+from harness import falsymulti as _fm                   # noqa: E402
+_add_family(globals(), _fm, 'falsymulti', _fm.oracle, share=0.03)
